@@ -1067,4 +1067,10 @@ def traceOf (cfg : Cfg) : St → List (Env × Ev) → List TItem
     [TItem.ev e] ++ obs.map TItem.ob ++ [TItem.dump st'.cache, TItem.timers (st'.timers.map (fun t => (t.what, t.due)))]
       ++ traceOf cfg st' rest
 
+/-- no step of the run reports that the interpreter ran out of fuel (`runActs`/`fireDue` are fuel-bounded:
+    a callback chain longer than `fuel` actions ends the step with the observation `badOp "fuel"`) -/
+def NoFuel (cfg : Cfg) : St → List (Env × Ev) → Prop
+  | _, [] => True
+  | st, (env, e) :: rest => Ob.badOp "fuel" ∉ (step cfg st env e).2 ∧ NoFuel cfg (step cfg st env e).1 rest
+
 end Afkak.ClientNet
